@@ -452,25 +452,55 @@ def run(ctx, res):
     callers_try = cg.callers(k_try)
     res.inventory["callers_of_interrupt"] = callers_int
     res.inventory["callers_of_try_interrupt"] = callers_try
-    res.ob(callers_int == [k_try])
-    if callers_int != [k_try]:
-        res.finding("boundary|interrupt-callers", "Cpu::interrupt is called from %r (only try_interrupt may)" % callers_int)
-    res.ob(callers_try == [k_run])
-    if callers_try != [k_run]:
-        res.finding("boundary|try_interrupt-callers", "try_interrupt is called from %r (only the run loop may)" % callers_try)
+
+    def only_from(k, roots, seen=()):
+        """k is one of roots, or a helper whose every caller chain leads into roots"""
+        if k in roots:
+            return True
+        if k in seen:
+            return True
+        cs = cg.callers(k)
+        return bool(cs) and all(only_from(c, roots, seen + (k,)) for c in cs)
+    okk = bool(callers_int) and all(only_from(c, {k_try}) for c in callers_int)
+    res.ob(okk)
+    if not okk:
+        res.finding("boundary|interrupt-callers", "Cpu::interrupt is reachable other than through try_interrupt (callers %r)" % callers_int)
+    okk = bool(callers_try) and all(only_from(c, {k_run}) for c in callers_try)
+    res.ob(okk)
+    if not okk:
+        res.finding("boundary|try_interrupt-callers", "try_interrupt is reachable other than through the run loop (callers %r)" % callers_try)
     reach_exec = cg.reachable(k_exec)
     for k in (k_try, k_int):
         res.ob(k not in reach_exec)
         if k in reach_exec:
             res.finding("boundary|inside-instruction|%s" % k.split("::")[-1], "interrupt entry is reachable from inside instruction execution: %s" % " -> ".join(cg.path(k_exec, k)))
-    g = cfgmod.Cfg(facts.bodies[k_run])
-    bt = [i for i, p, t in g.calls() if p == k_try]
-    bf = [i for i, p, t in g.calls() if p == facts.body("cpu::Cpu::fetch")["key"]]
-    be = [i for i, p, t in g.calls() if p == k_exec]
-    okk = len(bt) == 1 and len(bf) == 1 and len(be) == 1 and g.dominates(bt[0], bf[0]) and g.dominates(bf[0], be[0])
-    res.ob(okk)
-    if not okk:
-        res.finding("boundary|order", "in run, try_interrupt does not dominate fetch which dominates exec (blocks %r %r %r)" % (bt, bf, be))
+    # order inside one iteration of the run loop: taken from the effect traces of the generalised iteration (rules/c13.analyse),
+    # which follows helper functions - try_interrupt exactly once, before fetch, before exec
+    from rules import c13
+    I2, ip2, outs2, info2, names2, body2, g2, busfi2 = c13.analyse(facts)
+    nord = 0
+    for o in outs2:
+        st2 = o.state
+        if st2.ctr.get(("visit", info2["header"]), 0) == 0:
+            continue
+        if any(t_ in st2.tags for t_ in ("opaque-assert", "unknown-callee")):
+            res.errors.append("imprecise trace of the run loop: %r" % (st2.tags,))
+            continue
+        kinds = [e[0] for e in st2.eff]
+        if "fetch" not in kinds and "exec" not in kinds:
+            continue
+        nord += 1
+        nt = kinds.count("try_interrupt")
+        okk = nt == 1 and kinds.count("fetch") <= 1 and kinds.count("exec") <= 1
+        if okk and "fetch" in kinds:
+            okk = kinds.index("try_interrupt") < kinds.index("fetch")
+        if okk and "exec" in kinds:
+            okk = kinds.index("try_interrupt") < kinds.index("exec") and ("fetch" not in kinds or kinds.index("fetch") < kinds.index("exec"))
+        res.ob(okk)
+        if not okk:
+            res.finding("boundary|order", "an iteration of the run loop does not perform try_interrupt exactly once before fetch and exec (effects %r)" % [k_ for k_ in kinds if k_ in ("try_interrupt", "fetch", "exec")])
+    res.floor("run-loop iterations with an instruction analysed for the boundary order", nord, 2)
+    Mx = bv.M
     # ---- (3) queue discipline: every body that touches the controller's state is one the model above interpreted
     IC_FIELDS = set(facts.struct_fields(IC))
     touch = {}
